@@ -4,6 +4,7 @@
 import Depccg.Wire
 import Depccg.Print.Text
 import Depccg.Read.Text
+import Depccg.Read.File
 
 namespace Depccg
 namespace OpsTree
@@ -66,8 +67,28 @@ def printOp (f : Tree → Except Err Str) (ts : List String) : String :=
   | some (t, []) => encExcept encStr (f t)
   | _ => "bad-op"
 
+/-- the results of a file-level reader: `name | tree | tokens` per result -/
+def encFile (r : Except Err (List Read.ReaderResult)) : String :=
+  match r with
+  | .error e => "err " ++ e.name
+  | .ok rs => "ok " ++ toString rs.length ++ String.join (rs.map fun (name, toks, t) =>
+      " || " ++ encStr name ++ " " ++ encTree t ++ " | " ++ toString toks.length ++ String.join (toks.map fun t => " " ++ encTok t))
+
 def dispatch (op : String) (ts : List String) : Option String :=
   match op with
+  | "read_auto_file" => some (match pLang ts with
+      | some (lang, ts) => (match pStr ts with
+        | some (s, []) => encFile (Read.readAutoFile lang s)
+        | _ => "bad-op")
+      | none => "bad-op")
+  | "read_ptb_file" => some (match pLang ts with
+      | some (lang, ts) => (match pStr ts with
+        | some (s, []) => encFile (Read.readPtbFile lang s)
+        | _ => "bad-op")
+      | none => "bad-op")
+  | "read_ja_file" => some (match pStr ts with
+      | some (s, []) => encFile (Read.readJaFile s)
+      | _ => "bad-op")
   | "auto" => some (printOp Print.autoOf ts)
   | "autoext" => some (printOp Print.autoExtOf ts)
   | "conll" => some (printOp Print.conllOf ts)
